@@ -19,7 +19,7 @@ RULE = ('Generated acyclic WBS specs (<= 8 tasks quick / 10 thorough) with durat
         'leaf task object of this WBS listed once, non-empty when a leaf exists, WBS snapshot unchanged.  Inputs have <= 2 '
         'decimals, so exact slack is 0 or >= 0.01 while float error is <= 1e-12: any tolerance-based implementation agrees '
         'with the reference.  Side stream with predecessors outside the WBS: result must be a subset of this WBS\'s leaves. '
-        'Non-trivial = >= 2 distinct maximal chains, or a link touching a summary, or a non-integer duration; distinct = '
+        'A third of the generated cases then edit the plan (nest a task under its previous sibling / change an estimate) and ask the same WBS object again; the second answer is judged against the reference on the edited plan.  Non-trivial = >= 2 distinct maximal chains, or a link touching a summary, or a non-integer duration; distinct = '
         'distinct case.')
 ASSUMPTIONS = ['whether the duration of a predecessor outside the WBS counts is unspecified: only membership of the result is judged there']
 
